@@ -49,7 +49,37 @@ TRUSTED = [
     "event order of the real traces = order of O_APPEND writes to one log file (acquire logged after lockf "
     "returned, release/crash logged before unlocking/dying: a non-overlap in the log is a non-overlap in reality)",
     "the driver runs interpreted (`lean --run`), same definitions as the theorems, no compiled exe",
+    "harness/pygen.py (Python AST -> Lean `do` block in the state monad StateT FS (Except Err), fails closed) regenerates "
+    "I2N/Extracted/GenTransfer.lean on every run from the source of TransferOps.compare_local, compare_link, "
+    "download_local, upload_local, delete_local, download_link, upload_link; compareLocal_matches_source ... "
+    "downloadLink_matches_source prove the hand written big-step operations equal to them for all file systems and "
+    "paths (resulting file system and raised error).  Trusted: the translator; the atom table _transfer_specs of "
+    "harness/pygen.py — the file-system primitives are atoms: os.path.exists = pexists, os.path.islink = islink, "
+    "os.path.realpath = resolve (one level), crypto.hash_file(p, n, 'md5') of an existing file = the first n bytes "
+    "(md5 collision free on them) and '' = no digest, shutil.copy = copy, os.unlink = unlink, os.symlink = symlink, "
+    "each one atomic step; `with image_lock(...)` is translated in place (the lock protocol is the other half of the "
+    "model); os.makedirs and logging calls are dropped (directories are not modelled); calls between the functions "
+    "(TransferOps.compare_local / compare_link / upload_local) go to the generated counterparts",
+    "GenTransfer.lean also holds genDownload / genUpload / genDelete, regenerated from the dispatchers TransferOps.download "
+    "/ upload / delete (`hosts, path = pool_path.split(':')` with ValueError for another number of parts, host part -> "
+    "remote, ';' in the path -> link mode with the ';' removed, else local mode); download_matches_source, "
+    "upload_matches_source, delete_matches_source prove the model's dispatchers equal to them for all location strings. "
+    "Trusted in addition: pool_path.split(':') = the model's splitColon on the characters; the *_remote functions are "
+    "the error notModelled; `in` / replace on strings are I2N.Rules.isSubstr / the prelude's pyRemoveChar",
 ]
+
+
+
+def extract(ctx):
+    """lean/I2N/Extracted/GenTransfer.lean from /repo's AST (second tie, see harness/pygen.py).  Raises
+    (pygen.Unsupported) when a function left the translated subset: run.py records that as a proof problem."""
+    import pygen
+    if pygen.extract_transfer(ctx):
+        ctx.notes.append("I2N/Extracted/GenTransfer.lean changed: the source of the TransferOps functions differs from "
+                         "the one the committed file was generated from (the *_matches_source theorems are re-checked)")
+    ctx.extra["regenerated"] = ("lean/I2N/Extracted/GenTransfer.lean (TransferOps.compare_local/compare_link/"
+                                "download_local/upload_local/delete_local/download_link/upload_link/download/upload/delete via harness/pygen.py)")
+
 
 SYMS = "abcdefghijklmnopqrstuvwxyzABCDEFGHIJKLMNOPQRSTUVWXYZ0123456789"
 MIB = 1048576
